@@ -170,6 +170,8 @@ def classify(cat, only_a, only_b, arg_part):
         return "words-objects-not-written"
     if cat == "wedges" and only_a and all(x[1] == x[2] for x in only_a):
         return "zero-length-wedge-lost"
+    if cat == "barline_fermatas" and not only_a and only_b and all(x[1] == "left" for x in only_b):
+        return "right-barline-fermata-written-again-on-the-next-measure"
     if cat != "notes" or not only_a or not only_b:
         return f"roundtrip-differs:{cat}"
     a, b = only_a[0], only_b[0]
@@ -228,8 +230,22 @@ def check_roundtrip(ctx, arg, xml_bytes, label):
             if nums != list(range(1, len(nums) + 1)):
                 # MusicXML carries the measure's name; the number is the running index the importer assigns
                 ctx.ambiguous()
-                pa = dict(pa, measures=[(None,) + m_[1:] for m_ in pa["measures"]])
-                pb = dict(pb, measures=[(None,) + m_[1:] for m_ in pb["measures"]])
+                pa = dict(pa, measures=sorted([(None,) + m_[1:] for m_ in pa["measures"]], key=repr))
+                pb = dict(pb, measures=sorted([(None,) + m_[1:] for m_ in pb["measures"]], key=repr))
+            bf_times = [x[0] for x in pa["barline_fermatas"]]
+            if len(set(bf_times)) != len(bf_times):
+                # several barline fermatas at one position (unfolding copies one per adjoining segment): which side of the
+                # barline each is written on is don't-care
+                ctx.ambiguous()
+                pa = dict(pa, barline_fermatas=sorted(set(bf_times)))
+                pb = dict(pb, barline_fermatas=sorted({x[0] for x in pb["barline_fermatas"]}))
+            ids_ = [n_[1] for n_ in pa["notes"]]
+            if len(set(ids_)) != len(ids_) or None in ids_:
+                # MusicXML ids are unique: the writer renames repeated ids (and cannot write a missing one)
+                ctx.ambiguous()
+                strip = lambda rows: sorted([(r_[0], None) + r_[2:8] + (None, None) + r_[10:] for r_ in rows], key=repr)  # noqa
+                pa = dict(pa, notes=strip(pa["notes"]), slurs=[], tuplets=[])
+                pb = dict(pb, notes=strip(pb["notes"]), slurs=[], tuplets=[])
             d = first_diff(pa, pb)
             if d:
                 cat, only_a, only_b = d
@@ -382,6 +398,11 @@ def run_item(ctx, item):
                 p_.remove(n)
                 p_.add(u, s_, e_)
         pitched = [n for n in timemaps.objects_of(p_, S.Note, exact=True)]
+        if rng.random() < 0.12:
+            ms_ = sorted(timemaps.objects_of(p_, S.Measure), key=lambda m_: m_.start.t)
+            if len(ms_) >= 2:
+                # a fermata on the right barline of an inner measure (known finding: written twice)
+                p_.add(S.Fermata("right"), rng.choice(ms_[:-1]).end.t)
         if pitched and rng.random() < 0.25:
             inner = sorted({int(n.start.t) for n in pitched})[1:]
             if inner:
